@@ -661,6 +661,51 @@ def escape_rule(chk, prog):
     return n
 
 
+def unique_key_rule(chk, prog):
+    """K9-key: the data block cache is keyed by the block's on-disk location alone.  A sparse block occupies no bytes, so it
+    has the same location as the data block that follows it: it must never be looked up in (or put into) that cache.
+    Every call of the function that compares / sets the tag 'current_block' is guarded by a test that the block word's
+    on-disk size is not zero."""
+    fills = []
+    for f in prog.functions():
+        if f.decl or f.unit.src != "lib/sqfs/src/data_reader.c":
+            continue
+        f.build()
+        st = any(i.op == "store" and (field_of_ptr(i.ops[1], "struct.sqfs_data_reader_t") == "current_block") for i in f.insts())
+        ld = any(i.op == "load" and (field_of_ptr(i.ops[0], "struct.sqfs_data_reader_t") == "current_block") for i in f.insts())
+        if st and ld:
+            fills.append(f)
+    if not fills:
+        chk.broke("no function maintaining the data block cache tag (current_block) found")
+        return
+    n = 0
+    for g in fills:
+        for c in prog.callers_of(g):
+            f = c.bb.fn
+            f.build()
+            chk.analysed(f)
+            n += 1
+            inst = "%s->%s" % (f.name, g.name)
+            ok = False
+            for (cond, outcome, br) in f.guards_at(c.bb):
+                if not (cond.is_inst and cond.op == "icmp" and cond.ops[1].is_const and cond.ops[1].is_int and cond.ops[1].sval == 0):
+                    continue
+                a = cond.ops[0]
+                while a.is_inst and a.op in ("zext", "sext", "trunc"):
+                    a = a.ops[0]
+                if a.is_inst and a.op == "and" and any(o.is_const and o.is_int and o.uval == 0xFFFFFF for o in a.ops):
+                    nonzero = (cond.pred == "ne") == (outcome is True)
+                    if nonzero:
+                        ok = True
+            if ok:
+                chk.ok("K9-key", inst, c, "the cache is consulted only for blocks with a non-zero on-disk size (location identifies the block)")
+            else:
+                chk.violation("K9-key", inst, c, "the location-keyed block cache is used for a block that may be sparse: a hole has the "
+                              "location of the data block behind it, so one of the two is answered with the other's bytes depending on "
+                              "what was read before")
+    return n
+
+
 def run(chk):
     prog = load_program("libsquashfs.la")
     chk.explanation = (
@@ -688,6 +733,8 @@ def run(chk):
     chk.floor("K2-escape", 10)
     fresh_buffer_rule(chk, prog)
     chk.floor("K9-fresh", 2)
+    unique_key_rule(chk, prog)
+    chk.floor("K9-key", 1)
     chk.floor("K9-array", 2)
     chk.floor("K9-ptr", 2)
     chk.floor("K9-out", 2)
